@@ -221,3 +221,25 @@ Theorem C13_empty_destination_path_400_on_file_server : forall root sb r r',
   exists cs, serve (CDav (local_env root sb r) r') = Resp 400 cs /\ fst (D.serve root sb r) = sb.
 Proof. exact empty_destination_path_file_server. Qed.
 Print Assumptions C13_empty_destination_path_400_on_file_server.
+
+(** What counts as an invalid Depth / Overwrite value: a non-empty text that is not one of
+    the literals in any ASCII letter case (RFC 2616 section 2.1: literals are
+    case-insensitive, and RFC 4918 uses that grammar).  "Infinity" or "t" do not make a
+    request malformed, whether the server accepts them or answers 400. *)
+Theorem C13_invalid_depth_classification : forall r,
+  bad_depth r = true <-> str_empty (r_depth r) = false /\ depth_literal_ci (r_depth r) = false.
+Proof. exact bad_depth_iff. Qed.
+Print Assumptions C13_invalid_depth_classification.
+
+Theorem C13_invalid_overwrite_classification : forall r,
+  bad_overwrite r = true <-> str_empty (r_overwrite r) = false /\ overwrite_literal_ci (r_overwrite r) = false.
+Proof. exact bad_overwrite_iff. Qed.
+Print Assumptions C13_invalid_overwrite_classification.
+
+Theorem C13_case_variants_examples :
+  depth_literal_ci "Infinity" = true /\ depth_literal_ci "INFINITY" = true /\ depth_literal_ci "infinity" = true /\
+  overwrite_literal_ci "t" = true /\ overwrite_literal_ci "f" = true /\ overwrite_literal_ci "T" = true /\
+  depth_literal_ci "2" = false /\ depth_literal_ci " 1" = false /\ depth_literal_ci "infinite" = false /\
+  overwrite_literal_ci "X" = false /\ overwrite_literal_ci "TT" = false /\ overwrite_literal_ci "true" = false.
+Proof. exact case_variants_examples. Qed.
+Print Assumptions C13_case_variants_examples.
